@@ -4,8 +4,9 @@ from checks import valcomp
 from vlib.proto import unhex
 
 LEAN_TARGETS = ["LyModel.Props.C03"]
-AUDIT = "Audit/C03.lean"
+AUDIT = ["Audit/C03.lean", "Audit/C03Fn.lean"]
 GENERATED = ["ValBounds", "Consts"]
+LEAN_TARGETS += ["LyModel.Props.C03Fn"]; GENERATED += ["FnUtf8"]     # functions translated from the C source (tools/c2lean.py), bridged in lean/LyModel/Bridge
 ASSUMPTIONS = [
     "libc is modelled, not verified: strtoll/strtoull of glibc 2.36 in the C locale (leading isspace, one optional sign, 0x/0 prefixes for base 0/16, "
     "ERANGE above 2^63-1 / 2^63 / 2^64-1; no C23 0b prefix), isspace/isdigit of the C locale, printf %d / %0*d",
@@ -64,4 +65,5 @@ def classify(component, what, case):
 
 
 def run(cx):
+    from checks import fncomp; fncomp.run_fn(cx, ['utf8'])
     valcomp.run_val(cx)
